@@ -229,6 +229,20 @@ class Inliner:
                 continue            # method of a new class: receiver type unknown at the call site
             if _basic_ok(fn):
                 self.helpers[q] = (fn, owner)
+        # generator helpers consumed by a `for` statement (generator fusion): module-level, yields only as statements, no return,
+        # no try / with around a yield (close() semantics)
+        self.gen_helpers = {}
+        for q, (fn, owner) in self.funcs.items():
+            if "#" in q or f"{rel}:{q}" in self.inv or owner is not None or fn.decorator_list or fn.args.vararg or fn.args.kwarg:
+                continue
+            ys = [x for x in ast.walk(fn) if isinstance(x, (ast.Yield, ast.YieldFrom))]
+            if not ys or any(isinstance(x, ast.YieldFrom) for x in ys):
+                continue
+            stmts_y = [x for x in ast.walk(fn) if isinstance(x, ast.Expr) and isinstance(x.value, ast.Yield)]
+            bad = any(isinstance(x, (ast.Return, ast.Try, ast.With, ast.FunctionDef, ast.ClassDef, ast.Lambda, ast.Global, ast.Nonlocal, ast.Await)) and x is not fn
+                      for x in ast.walk(fn))
+            if len(stmts_y) == len(ys) and not bad:
+                self.gen_helpers[q] = (fn, None)
         # no recursion among helpers
         for q in list(self.helpers):
             if self._reaches(q, q, set()):
@@ -329,6 +343,67 @@ class Inliner:
         self.inlined[q] = self.inlined.get(q, 0) + 1
         return pre + mod_.body
 
+    def _fuse(self, loop, caller_fn):
+        """`for T in gen(args): body`  ->  the generator's body with every `yield v` replaced by `T = v; body` (generator fusion).
+        Exact when the consumer body cannot leave the loop early (no break / continue / return of its own)."""
+        def escapes(stmts, in_loop=False):
+            for st in stmts:
+                if isinstance(st, (ast.Return, ast.Yield, ast.YieldFrom)):
+                    return True
+                if isinstance(st, (ast.Break, ast.Continue)) and not in_loop:
+                    return True
+                for f in ("body", "orelse", "finalbody"):
+                    blk = getattr(st, f, None)
+                    if isinstance(blk, list) and blk and isinstance(blk[0], ast.stmt):
+                        if escapes(blk, in_loop or isinstance(st, (ast.For, ast.While))):
+                            return True
+                for h in getattr(st, "handlers", []) or []:
+                    if escapes(h.body, in_loop):
+                        return True
+                if any(isinstance(x, (ast.Yield, ast.YieldFrom, ast.Return)) for x in ast.walk(st)):
+                    return True
+            return False
+        if escapes(loop.body):
+            return None
+        q = loop.iter.func.id
+        saved = self.helpers
+        self.helpers = dict(saved)
+        self.helpers[q] = self.gen_helpers[q]
+        try:
+            # bind parameters / rename locals exactly as for a plain helper; the "return" mode keeps the body verbatim
+            marker = ast.Return(value=None)
+            fn = self.gen_helpers[q][0]
+            tnames = {x.id for x in ast.walk(loop.target) if isinstance(x, ast.Name)}
+            fake_caller = ast.Module(body=[caller_fn, ast.Expr(value=ast.Tuple(elts=[ast.Name(id=t, ctx=ast.Load()) for t in tnames], ctx=ast.Load()))], type_ignores=[])
+            new = self._expand(loop.iter, q, fake_caller, "return", None)
+        except NotInlinable:
+            return None
+        finally:
+            self.helpers = saved
+        if new and isinstance(new[-1], ast.Return) and new[-1].value is not None and isinstance(new[-1].value, ast.Constant) and new[-1].value.value is None:
+            new = new[:-1]          # the implicit end of the generator
+        stored_in_body = {x.id for st in loop.body for x in ast.walk(st) if isinstance(x, ast.Name) and isinstance(x.ctx, (ast.Store, ast.Del))}
+
+        class Y(ast.NodeTransformer):
+            def visit_Expr(self_, n):
+                if not isinstance(n.value, ast.Yield):
+                    return n
+                v = n.value.value or ast.Constant(value=None)
+                body = copy.deepcopy(loop.body)
+                tg = copy.deepcopy(loop.target)
+                out = [ast.Assign(targets=[tg], value=v, lineno=n.lineno)]
+                if isinstance(tg, ast.Tuple) and isinstance(v, ast.Tuple) and len(tg.elts) == len(v.elts) and all(isinstance(a, ast.Name) for a in tg.elts + v.elts) \
+                        and not ({a.id for a in tg.elts} & stored_in_body):
+                    ren = {a.id: b.id for a, b in zip(tg.elts, v.elts)}
+                    m = ast.Module(body=body, type_ignores=[])
+                    _Subst(ren, {}).visit(m)
+                    body = m.body
+                return out + body
+        m = ast.Module(body=new, type_ignores=[])
+        Y().visit(m)
+        self.inlined[q] = self.inlined.get(q, 0) + 0        # counted by _expand already
+        return m.body
+
     # ------------------------------------------------------------- statements
     def _first_call(self, exprs, owner):
         """first inlinable call in evaluation order such that everything evaluated before it is simple; -> Call or None"""
@@ -421,6 +496,11 @@ class Inliner:
                     return self._block(new, caller_fn, owner, depth + 1)
                 except NotInlinable:
                     return [s]
+        if isinstance(s, ast.For) and not s.orelse and isinstance(s.iter, ast.Call) and isinstance(s.iter.func, ast.Name) \
+                and s.iter.func.id in self.gen_helpers and s.iter.func.id != getattr(caller_fn, "name", None):
+            fused = self._fuse(s, caller_fn)
+            if fused is not None:
+                return self._block(fused, caller_fn, owner, depth + 1)
         heads = []
         if isinstance(s, ast.Assign):
             heads = [s.value] if all(_simple(t) or isinstance(t, (ast.Tuple, ast.Subscript)) for t in s.targets) else []
@@ -506,9 +586,59 @@ class Normalizer(ast.NodeTransformer):
             out.append(s)
         return out
 
+    def _slice_alias(self, stmts):
+        """N4  `r = slice(a, b)` + `X[r]` ... -> `X[a:b]` when r is used only as a whole index in this block and a, b keep their values"""
+        out = list(stmts)
+        i = 0
+        while i < len(out):
+            st = out[i]
+            if isinstance(st, ast.Assign) and len(st.targets) == 1 and isinstance(st.targets[0], ast.Name) and isinstance(st.value, ast.Call) \
+                    and isinstance(st.value.func, ast.Name) and st.value.func.id == "slice" and 1 <= len(st.value.args) <= 3 and not st.value.keywords \
+                    and all(isinstance(a, (ast.Name, ast.Constant)) for a in st.value.args):
+                r = st.targets[0].id
+                rest = out[i + 1:]
+                uses, other, last = [], False, -1
+                for j, s2 in enumerate(rest):
+                    parents = {}
+                    for x in ast.walk(s2):
+                        for ch in ast.iter_child_nodes(x):
+                            parents[id(ch)] = x
+                    for x in ast.walk(s2):
+                        if isinstance(x, ast.Name) and x.id == r:
+                            p = parents.get(id(x))
+                            if isinstance(x.ctx, ast.Load) and isinstance(p, ast.Subscript) and p.slice is x:
+                                uses.append(p); last = j
+                            else:
+                                other = True
+                argn = {a.id for a in st.value.args if isinstance(a, ast.Name)}
+                clobber = any(isinstance(x, ast.Name) and x.id in argn and isinstance(x.ctx, (ast.Store, ast.Del)) for s2 in rest[:last + 1] for x in ast.walk(s2))
+                if uses and not other and not clobber and self.fn_stores.get(r, 0) == 1:
+                    a = st.value.args
+                    lo, hi, step = (None, a[0], None) if len(a) == 1 else (a[0], a[1], a[2] if len(a) == 3 else None)
+                    none = lambda v: None if v is None or (isinstance(v, ast.Constant) and v.value is None) else v
+                    for u in uses:
+                        u.slice = ast.Slice(lower=copy.deepcopy(none(lo)), upper=copy.deepcopy(none(hi)), step=copy.deepcopy(none(step)))
+                    del out[i]
+                    self.count += 1
+                    continue
+            i += 1
+        return out
+
+    def visit_FunctionDef(self, f):
+        prev = getattr(self, "fn_stores", {})
+        self.fn_stores = {}
+        for x in ast.walk(f):
+            if isinstance(x, ast.Name) and isinstance(x.ctx, (ast.Store, ast.Del)):
+                self.fn_stores[x.id] = self.fn_stores.get(x.id, 0) + 1
+        self.generic_visit(f)
+        f.body = self._slice_alias(f.body)
+        self.fn_stores = prev
+        return f
+
     def visit_For(self, n):
         self.generic_visit(n)
-        n.body = self._loop_body(n.body)
+        n.body = self._slice_alias(self._loop_body(n.body))
+        n.orelse = self._slice_alias(n.orelse) if n.orelse else n.orelse
         return n
 
     def visit_While(self, n):
@@ -518,6 +648,9 @@ class Normalizer(ast.NodeTransformer):
 
     def visit_If(self, n):
         self.generic_visit(n)
+        if hasattr(self, "fn_stores"):
+            n.body = self._slice_alias(n.body)
+            n.orelse = self._slice_alias(n.orelse) if n.orelse else n.orelse
         if isinstance(n.test, ast.UnaryOp) and isinstance(n.test.op, ast.Not) and n.orelse and not (len(n.orelse) == 1 and isinstance(n.orelse[0], ast.If)):
             self.count += 1
             n.test, n.body, n.orelse = n.test.operand, n.orelse, n.body
@@ -570,7 +703,7 @@ def build_inlined_tree(src_root, dst_root):
             if isinstance(n, ast.ClassDef):
                 other[n.name] = {m for m, where in defined.items() if any(w != (rel, n.name) for w in where)}
         inl = Inliner(rel, t, inv, other)
-        if not inl.helpers:
+        if not inl.helpers and not inl.gen_helpers:
             continue
         done = inl.run()
         if done:
